@@ -29,11 +29,23 @@ let show (f : 'a -> string) (r : 'a Merkle.res) =
 
 let bp l n d = { Merkle.bp_leaves = l_of l; Merkle.bp_nodes = ll_of n; Merkle.bp_depth = z d }
 
-let with_tree leaves k = match C10.t_new (l_of leaves) with Merkle.Ok t -> k t | _ -> "notree"
+(* the same tree is used by many consecutive cases: memoise MerkleTree::new on the leaves token *)
+let tree_cache : (string, BinNums.coq_Z Merkle.mtree Merkle.res) Stdlib.Hashtbl.t = Stdlib.Hashtbl.create 64
+
+let t_new_cached leaves =
+  match Stdlib.Hashtbl.find_opt tree_cache leaves with
+  | Some r -> r
+  | None ->
+    let r = C10.t_new (l_of leaves) in
+    if Stdlib.Hashtbl.length tree_cache > 4096 then Stdlib.Hashtbl.reset tree_cache;
+    Stdlib.Hashtbl.add tree_cache leaves r;
+    r
+
+let with_tree leaves k = match t_new_cached leaves with Merkle.Ok t -> k t | _ -> "notree"
 
 let eval = function
   | [ "new"; leaves ] ->
-    show (fun t -> "ok " ^ show h (C10.t_root t) ^ " " ^ l_to t.Merkle.mt_nodes) (C10.t_new (l_of leaves))
+    show (fun t -> "ok " ^ show h (C10.t_root t) ^ " " ^ l_to t.Merkle.mt_nodes) (t_new_cached leaves)
   | [ "build_nodes"; leaves ] -> show (fun n -> "ok " ^ l_to n) (C10.t_build_nodes (l_of leaves))
   | [ "prove"; leaves; i ] -> with_tree leaves (fun t -> show (fun p -> "ok " ^ l_to p) (C10.t_prove t (z i)))
   | [ "verify"; root; i; path ] -> show (fun () -> "ok") (C10.t_verify (z root) (z i) (l_of path))
